@@ -571,6 +571,11 @@ func check(b batch) *rp.Fail {
 		} else {
 			f = f2
 		}
+		if f.Fingerprint == "hang" && !ev.Replaying() {
+			// calls that never return twice in a row, also with all times stretched: they still hold whatever they wait for (the
+			// bind-port guard is process-wide), so no later case - and no shrinking - can be run in this process
+			ev.Fatal("batch", f.Fingerprint, f.Msg, b)
+		}
 	}
 	return f
 }
